@@ -152,6 +152,24 @@ def run(ctx):
                 r2.check(w is None, "every-configured-pool-published", "every turn of the per-user loop of from_config ends with an insert into the new map (or from_config returns an error)",
                          "a turn of the per-user loop of from_config can go on to the next user without inserting a pool: the map is published without a pool that CONFIG lists - its clients get `No pool configured` although the previous "
                          "pool's servers are healthy, the rest of the file is applied (a half-applied reload), and the next reload sees `no change`", "", w and fc.describe_path(w))
+        # `clients of a removed pool get an error`: also those PAUSE holds at the removed pool's gate. RESUME walks the pools of the current map; a pool that left
+        # the map can be reached by nothing - from_config itself opens the gate of every pool of the previous map that is not in the new one (after the swap, so
+        # that the clients it lets go find their pool gone)
+        rs_ = [c for c in fc.calls("pgcat::pool::ConnectionPool::resume")]
+        fsw_ = switches(fc)
+        ckT, ckF, _ = call_bool_edges(fc, "re:^std::collections::hash::map::HashMap<.*>::contains_key$|^std::collections::hash::map::HashMap::contains_key$", switches_cache=fsw_)
+        ok_rm = False
+        why_rm = "from_config never calls resume() on a pool of the previous map"
+        for c in rs_:
+            from_prev = any(o.kind == "call" and o.call.name == "pgcat::pool::get_all_pools" for o in origins(fc, c.args[0], taint=True))
+            gated = bool(ckF) and fc.uncrossed_path([0], [c.block], edges=set(ckF)) is None
+            after_store = fc.dominates(st.block, c.block)
+            if from_prev and gated and after_store:
+                ok_rm = True
+            else:
+                why_rm = "the resume() in from_config is %s" % ", ".join(x for x, y in (("not applied to the pools of the previous map", from_prev), ("not restricted to pools missing from the new map", gated), ("not after the swap", after_store)) if not y)
+        r2.check(ok_rm, "removed-pool-lets-its-clients-go", "from_config opens the pause gate of every pool of the previous map that is missing from the new one, after the swap",
+                 why_rm + ": clients held by PAUSE on a pool that the reload removes wait on a gate no RESUME can reach any more - they never get `No pool configured`, their tasks leak")
     callers = F.callers_of("pgcat::pool::ConnectionPool::from_config")
     r2.check(set(callers) == {"bin:pgcat::main::{closure#1}", RELOAD}, "from_config-callers", "from_config is called from main (startup) and reload_config only", "from_config callers: %s" % callers)
     rl = ctx.body(RELOAD, r2)
